@@ -38,6 +38,7 @@ func runC03(c *kit.Ctx) {
 	r6 := c.Rule("R6", "scope of node-point and edge-point deltas", 2)
 	r7 := c.Rule("R7", "ownership of edges.hash", 4)
 	r8 := c.Rule("R8", "verifier", 3)
+	r9 := c.Rule("R9", "what is hashed is what is stored", 2)
 
 	c03CRC(c, r1)
 	for _, w := range m.writers {
@@ -77,6 +78,18 @@ func runC03(c *kit.Ctx) {
 			} else {
 				o.OK("delta pairs with the write")
 			}
+		}
+	}
+	// R9: the checksum is taken from the queued incoming point; the statement must
+	// bind exactly those field values, otherwise stored content and stored hash differ
+	for _, w := range m.writers {
+		o := r9.Ob(w.F, w.Exec.Call, w.Table+": hashed fields bound unmodified", "time, type, key, text and value are bound from the unmodified fields of the point whose checksum entered the delta")
+		hashed := map[string]bool{"time": true, "type": true, "key": true, "text": true, "value": true}
+		pf := map[string]string{"type": "Type", "key": "Key", "time": "Time", "value": "Value", "text": "Text"}
+		if bad := boundArgsProblem(c, w, pf, hashed); bad != "" {
+			o.Violation("%s: the stored hash is computed from the incoming value, so it no longer equals the hash of the stored content", bad)
+		} else {
+			o.OK("five hashed columns bound from the queued point")
 		}
 	}
 	hm := newHashModel(c, m)
